@@ -86,7 +86,7 @@ def clone (src : JVal) : Option JVal :=
   | .arr _ | .obj _ =>
     let root : Frame := ⟨none, match src with | .obj _ => true | _ => false, []⟩
     match run (events 0 src) ([root], 0) with
-    | some (fs, _) => match popN (fs.length - 1) fs with
+    | some (fs, pos) => match popN pos fs with
       | some [f] => some f.close
       | _ => none
     | none => none
